@@ -10,21 +10,29 @@ import (
 	"os"
 	"sort"
 	"strings"
+	"time"
 )
 
 type ctx struct {
-	tier   string
-	seed   uint64
-	out    *bufio.Writer
-	stats  map[string]int
-	replay string
+	tier      string
+	seed      uint64
+	out       *bufio.Writer
+	lastFlush time.Time
+	stats     map[string]int
+	replay    string
 }
 
 func (c *ctx) emit(prop, args, impl string) {
 	fmt.Fprintf(c.out, "%s %s => %s\n", prop, args, impl)
+	// slow properties (two real pipelines per case) must not sit in the 1 MB buffer while the runner's time budget
+	// runs out: flush at least every 200 ms
+	if now := time.Now(); now.Sub(c.lastFlush) > 200*time.Millisecond {
+		c.out.Flush()
+		c.lastFlush = now
+	}
 }
 func (c *ctx) stat(key string, n int) { c.stats[key] += n }
-func (c *ctx) thorough() bool        { return c.tier == "thorough" }
+func (c *ctx) thorough() bool         { return c.tier == "thorough" }
 
 var props = map[string]func(*ctx){}
 
